@@ -511,6 +511,22 @@ func genTemporalCase(rt *rapid.T) tcase {
 			frac = rapid.SampledFrom([]string{"", "", "5", "4", "000001", "999999", "0004", "0005", "123456", "499", "500"}).Draw(rt, "frac")
 		}
 	}
+	// the exact ends of the supported ranges (and one second outside the TIMESTAMP range)
+	if rapid.IntRange(0, 3).Draw(rt, "rangeend") == 0 {
+		type ymdhms struct{ y, mo, d, h, mi, s int }
+		ends := []ymdhms{{1000, 1, 1, 0, 0, 0}, {9999, 12, 31, 23, 59, 59}}
+		if kind == "TIMESTAMP" {
+			ends = []ymdhms{{1970, 1, 1, 0, 0, 1}, {1970, 1, 1, 0, 0, 0}, {2038, 1, 19, 3, 14, 7}, {2038, 1, 19, 3, 14, 8}}
+		}
+		e := rapid.SampledFrom(ends).Draw(rt, "end")
+		year, month, day, hour, minute, sec = e.y, e.mo, e.d, e.h, e.mi, e.s
+		if kind == "DATE" {
+			hour, minute, sec = 0, 0, 0
+		} else {
+			hasTime = true
+		}
+		frac = ""
+	}
 	if year == 9999 && hour == 23 && minute == 59 && sec == 59 {
 		frac = "" // rounding up would leave the supported range
 	}
@@ -798,9 +814,12 @@ func genJSONCase(rt *rapid.T) tcase {
 }
 
 func genCase(rt *rapid.T) tcase {
-	switch rapid.IntRange(0, 19).Draw(rt, "family") {
-	case 0, 1, 2, 3, 4:
+	// rapid's IntRange favours the ends of the range; the low bits of a wide draw are close to uniform
+	switch int(rapid.Uint64().Draw(rt, "family") % 20) {
+	case 0, 1, 2, 3:
 		return genIntegerCase(rt)
+	case 4:
+		return genEnumCase(rt)
 	case 5, 6, 7:
 		return genDecimalCase(rt)
 	case 8:
@@ -814,9 +833,6 @@ func genCase(rt *rapid.T) tcase {
 	case 16:
 		return genYearCase(rt)
 	case 17:
-		if rapid.Bool().Draw(rt, "enumorset") {
-			return genEnumCase(rt)
-		}
 		return genSetCase(rt)
 	case 18:
 		return genBitCase(rt)
